@@ -76,23 +76,82 @@ fn run_workers(prop: &str, tier: &str, seed: u64, b: &Budget, outdir: &str) -> R
         children.push((wk, child));
     }
     let mut out = Vec::new();
+    let deadline = Instant::now() + std::time::Duration::from_secs_f64(b.secs * 3.0 + 120.0);
     for (wk, mut ch) in children {
-        let mut so = String::new();
-        let mut se = String::new();
-        if let Some(mut o) = ch.stdout.take() {
-            let _ = o.read_to_string(&mut so);
-        }
-        if let Some(mut e) = ch.stderr.take() {
-            let _ = e.read_to_string(&mut se);
-        }
-        let st = ch.wait().map_err(|e| e.to_string())?;
+        // drain stdout/stderr on helper threads so a chatty child cannot block on a full pipe
+        let so_h = ch.stdout.take().map(|mut o| {
+            std::thread::spawn(move || {
+                let mut s = String::new();
+                let _ = o.read_to_string(&mut s);
+                s
+            })
+        });
+        let se_h = ch.stderr.take().map(|mut e| {
+            std::thread::spawn(move || {
+                let mut s = String::new();
+                let _ = e.read_to_string(&mut s);
+                s
+            })
+        });
+        let mut hung = false;
+        let st = loop {
+            match ch.try_wait() {
+                Ok(Some(st)) => break st,
+                Ok(None) => {
+                    if Instant::now() > deadline {
+                        hung = true;
+                        let _ = ch.kill();
+                        break ch.wait().map_err(|e| e.to_string())?;
+                    }
+                    std::thread::sleep(std::time::Duration::from_millis(20));
+                }
+                Err(e) => return Err(e.to_string()),
+            }
+        };
+        let so = so_h.map(|h| h.join().unwrap_or_default()).unwrap_or_default();
+        let se = se_h.map(|h| h.join().unwrap_or_default()).unwrap_or_default();
         if !st.success() {
-            return Err(format!(
-                "worker {} died ({}); stderr tail: {}",
-                wk,
-                st,
-                se.lines().rev().take(12).collect::<Vec<_>>().into_iter().rev().collect::<Vec<_>>().join(" | ")
-            ));
+            // The worker process died (abort, segfault, stack overflow) or hung inside one
+            // execution: capture that execution by its seed.
+            let mode = if wk % 2 == 0 { "sc" } else { "weak" };
+            let cur = format!("{}/tmp-cur-{}-{}.bin", outdir, prop, wk);
+            let es = std::fs::read(&cur).ok().and_then(|b| b.get(..8).map(|x| u64::from_le_bytes(x.try_into().unwrap())));
+            let _ = std::fs::remove_file(&cur);
+            let Some(es) = es else {
+                return Err(format!("worker {} died ({}) before its first execution; stderr: {}", wk, st, se.lines().last().unwrap_or("")));
+            };
+            let (case, _) = crate::case_for(prop, tier == "thorough", mode == "weak", es);
+            let rf = ReplayFile {
+                property: prop.to_string(),
+                primary_property: "C13".into(),
+                oracle: if hung { "hang".into() } else { "crash".into() },
+                message: format!(
+                    "the worker process {} while running this execution ({}); last stderr line: {}",
+                    if hung { "did not finish and was killed" } else { "died" },
+                    st,
+                    se.lines().last().unwrap_or("")
+                ),
+                seed,
+                exec_seed: es,
+                minimised: false,
+                n_decisions: 0,
+                n_nonzero: 0,
+                stale_sites: vec![],
+                markers: vec![],
+                rng_seed: Some(es ^ crate::RNG_SALT),
+                case,
+                picks: String::new(),
+            };
+            let path = format!("{}/tmp-{}-{}-crash-{:016x}.json", outdir, prop, mode, es);
+            std::fs::write(&path, serde_json::to_string_pretty(&rf).unwrap()).map_err(|e| e.to_string())?;
+            let mut s = WorkerSummary {
+                worker: wk,
+                mode: mode.into(),
+                ..Default::default()
+            };
+            s.failures.push(path);
+            out.push(s);
+            continue;
         }
         let line = so.lines().rev().find(|l| l.starts_with('{')).ok_or_else(|| format!("worker {} printed no summary", wk))?;
         let s: WorkerSummary = serde_json::from_str(line).map_err(|e| format!("worker {} summary: {}", wk, e))?;
@@ -308,6 +367,39 @@ pub fn cmd_run(args: &[String]) -> i32 {
         }
         minimised_budget -= 1;
         seen_classes.insert(class);
+        if rf.rng_seed.is_some() {
+            // crash / hang capture: cannot be minimised in-process; confirm it in a fresh process
+            let name = format!("{}/{}-{}-{}-{:016x}.json", outdir, rf.property, rf.oracle, rf.case.cfg.mode, rf.exec_seed);
+            let _ = std::fs::rename(f, &name);
+            let mut ch = Command::new(std::env::current_exe().unwrap())
+                .args(["replay", &name])
+                .stdout(Stdio::null())
+                .stderr(Stdio::null())
+                .spawn()
+                .expect("spawn replay");
+            let t1 = Instant::now();
+            let died = loop {
+                match ch.try_wait() {
+                    Ok(Some(st)) => break st.code().is_none() || st.code() == Some(134) || st.code() == Some(101),
+                    Ok(None) => {
+                        if t1.elapsed().as_secs_f64() > 20.0 {
+                            let _ = ch.kill();
+                            let _ = ch.wait();
+                            break rf.oracle == "hang";
+                        }
+                        std::thread::sleep(std::time::Duration::from_millis(20));
+                    }
+                    Err(_) => break false,
+                }
+            };
+            if !died {
+                eprintln!("HARNESS-ERROR: a worker process died/hung but replaying {} in a fresh process does not reproduce it", name);
+                return 2;
+            }
+            println!("  failure: oracle={} mode={} (worker process died or hung; reproduced from its seed in a fresh process)", rf.oracle, rf.case.cfg.mode);
+            violations.push((rf, name));
+            continue;
+        }
         let (min, used) = minimise(&rf, 4000, 45.0);
         let name = format!(
             "{}/{}-{}-{}-{:016x}.json",
